@@ -21,7 +21,14 @@ LEVEL_TEXT = (
     "unmergeable pair - named fragments, cyclic spreads and a fragment reached under several parents included. "
     "Also proved: do_types_conflict = not SameResponseShape on types; same_arguments = equality of argument maps up to "
     "argument order and input-object field order (natural_comparison_key is a linear order); soundness of a pair-set "
-    "hit; termination with an explicit recursion bound. The model is tied to the Python code by the three-way "
+    "hit; termination with an explicit recursion bound. The executable oracle of the check is proved too: "
+    "specConflictB_total (the work-list search over the specification's pairs always answers, fuel bound proved, cyclic "
+    "spreads included), specConflictB_iff (it answers 'conflict' iff SpecConflict holds, given pairwise different "
+    "field-node identities - reported by the driver for every case), hence overlap_iff_oracle: model of the rule and "
+    "oracle agree on every schema and document. For __typename: overlap_typename_local (the rule compares everything "
+    "except the return types of a pair with a __typename field) and overlap_iff_typename_of_invariance (document "
+    "level, given one decidable evaluation per document); the check measures on every generated document selecting "
+    "__typename that the rule agrees with the specification run on the document with __typename hidden. The model is tied to the Python code by the three-way "
     "differential run (Python rule / Lean model / Lean spec) on generated and exhaustively enumerated documents."
 )
 LEVEL_NOTE = (
@@ -29,7 +36,10 @@ LEVEL_NOTE = (
     "run: same conflicts, same field nodes, per document); hand-written spec Gql/Exec/SpecMerge.lean (read "
     "against the GraphQL spec text); harness.  Hypotheses of overlap_iff: selection-set identities distinct, unique "
     "argument/input-field names, no __typename selection (known finding), operation roots are object types, ScalarLeafs, "
-    "spread names without parentheses.  Experimental fragment arguments and __schema/__type selections are outside the statement."
+    "spread names without parentheses.  Hypothesis of specConflictB_iff / overlap_iff_oracle: field-node identities "
+    "pairwise different (the serialiser numbers nodes with one counter; the driver reports the condition per case and "
+    "the check stops if it ever fails).  Open: overlap_iff_typename_full (document-level statement with __typename "
+    "selections allowed).  Experimental fragment arguments and __schema/__type selections are outside the statement."
 )
 TECHNIQUE = "Lean 4 proof (model vs spec) + three-way differential correspondence"
 TRUSTED = [
@@ -52,7 +62,10 @@ ASSUMPTIONS = [
 EXPLANATION = (
     "Model = the rule as written; spec = FieldsInSetCanMerge/SameResponseShape over fragment-expanded sets. "
     "Theorems: overlap_iff (full equivalence, all documents), overlap_iff_nofrag, overlap_iff_partial, doTypesConflict_iff, "
-    "sameArguments_iff(_natural), pairset_sound, terminates. "
+    "sameArguments_iff(_natural), pairset_sound, terminates; oracle: specConflictB_total, specConflictB_sound, "
+    "specConflictB_iff, specConflictB_false_iff, overlap_iff_oracle; __typename: overlap_typename_local, "
+    "overlap_local_defs, overlap_iff_typename_of_invariance (driver field T = oracle on the document with __typename "
+    "hidden; the known-finding fingerprint is only given to a miss that this oracle does not make either). "
     "Correspondence: Python rule vs model (exact conflicts); oracle: Python rule yes/no vs spec through the driver; "
     "per-case timeout on the implementation = termination oracle."
 )
@@ -110,10 +123,10 @@ def run_impl(schema, doc, ser):
 
 
 def parse_model(out):
-    """driver line -> (impl conflicts sorted | 'fuel', spec bool|None, wf, bound)"""
+    """driver line -> (impl conflicts sorted | 'fuel', spec bool|None, wf, bound, field ids unique)"""
     w = out.split(" ")
-    # I <c> S <s> W <w> B <b>
-    if len(w) != 8 or w[0] != "I":
+    # I <c> S <s> W <w> B <b> U <u> T <t>
+    if len(w) != 12 or w[0] != "I":
         return None
     if w[1] == "fuel":
         conflicts = "fuel"
@@ -127,13 +140,17 @@ def parse_model(out):
             conflicts.append((rn, ids))
         conflicts.sort()
     spec = {"0": False, "1": True}.get(w[3])
-    return conflicts, spec, w[5] == "1", int(w[7])
+    blind = {"0": False, "1": True}.get(w[11])
+    return conflicts, spec, w[5] == "1", int(w[7]), w[9] == "1", blind
 
 
-def fingerprint(case, ser, impl_yes, spec_yes):
+def fingerprint(case, ser, impl_yes, spec_yes, blind_yes=None):
     q = case["query"]
     if not impl_yes and spec_yes:
-        if "__typename" in q:
+        # the known finding only explains a miss that the specification with `__typename` regarded as a
+        # field without return type (driver: T) does not make either; any other miss in a document that
+        # happens to select __typename keeps its ordinary fingerprint
+        if "__typename" in q and blind_yes in (None, False):
             return "missed-conflict-typename-meta-field"
         if case.get("noloc"):
             return "missed-conflict-document-without-locations"
@@ -150,7 +167,8 @@ def _work(args):
     driver = fw.Driver(drv) if drv else None
     st = rep.stats
     for k in ("docs", "impl_conflict", "spec_conflict", "with_spreads", "noloc", "with_args",
-              "with_stream", "args_not_wf", "fields_total", "timeouts"):
+              "with_stream", "args_not_wf", "fields_total", "timeouts", "typename_docs",
+              "typename_blind_spec_agrees", "typename_blind_spec_differs"):
         st[k] = 0
     schemas = {}
     lines, metas = [], []
@@ -198,7 +216,10 @@ def _work(args):
         m = parse_model(out)
         if m is None:
             raise fw.InfraError(f"driver output not understood: {out!r} for {inp!r}")
-        conflicts, spec_yes, wf, _bound = m
+        conflicts, spec_yes, wf, _bound, ids_unique, blind_yes = m
+        if not ids_unique:
+            # hypothesis FieldIdsNodup of specConflictB_iff: the oracle is proved only with it
+            raise fw.InfraError(f"serialiser gave two field nodes one identity on {inp!r}")
         st["args_not_wf"] += 0 if wf else 1
         if conflicts == "fuel":
             rep.disagreements.append(Disagreement("model-out-of-fuel (terminates theorem)", inp, impl[1], "fuel"))
@@ -211,10 +232,20 @@ def _work(args):
         # approximated on the Python side by: at least two fields share a response name in the document
         if ser.n_fields >= 2 and (impl_yes or spec_yes or ser.n_spreads or ser.n_inline):
             seen_nontrivial.add(case["query"])
+        # characterisation of the known finding (overlap_iff_typename_full, measured): on documents selecting
+        # __typename the rule agrees with the specification run on the document with __typename hidden
+        if wf and "__typename" in case["query"] and blind_yes is not None:
+            st["typename_docs"] += 1
+            if impl_yes == blind_yes:
+                st["typename_blind_spec_agrees"] += 1
+            else:
+                st["typename_blind_spec_differs"] += 1
+                if len(rep.notes) < 5:
+                    rep.notes.append(f"rule differs from the typename-blind specification on {inp!r}")
         # the property: rule reports a conflict  <=>  the specification finds an unmergeable pair
         if wf and impl_yes != spec_yes:
             rep.failures.append(Failure(
-                fingerprint(case, ser, impl_yes, spec_yes),
+                fingerprint(case, ser, impl_yes, spec_yes, blind_yes),
                 "rule reports a conflict" + (" but " if impl_yes else " not, but ")
                 + "FieldsInSetCanMerge/SameResponseShape " + ("rejects" if spec_yes else "accepts") + " the document",
                 inp, {"rule_conflicts": impl[1]}, {"spec_conflict": spec_yes},
